@@ -576,6 +576,50 @@ fn test_custom_syntax() {
 }
 
 #[test]
+#[cfg(feature = "custom_syntax")]
+fn test_custom_syntax_end_delimiter_starts_like_marker() {
+    // end delimiters that begin with `-` or `+` are not whitespace control markers
+    let mut env = Environment::new();
+    env.set_syntax(
+        minijinja::syntax::SyntaxConfig::builder()
+            .block_delimiters("<%", "-%>")
+            .variable_delimiters("<<", "->>")
+            .comment_delimiters("<!--", "-->")
+            .build()
+            .unwrap(),
+    );
+
+    // an empty comment with a marker on the start side only keeps what follows it,
+    // like `{#-#}` and `{#+#}` do in the default syntax
+    assert_eq!(env.render_str("a <!----->\n b", ()).unwrap(), "a\n b");
+    assert_eq!(env.render_str("a <!--+-->\n b", ()).unwrap(), "a \n b");
+    assert_eq!(env.render_str("a <!-- x -->\n b", ()).unwrap(), "a \n b");
+    assert_eq!(env.render_str("a <!-- x --->\n b", ()).unwrap(), "a b");
+    assert_eq!(env.render_str("a <!------>\n b", ()).unwrap(), "ab");
+
+    // raw blocks are recognized with and without markers
+    assert_eq!(
+        env.render_str("a <% raw -%> <<x->> <% endraw -%> b", ())
+            .unwrap(),
+        "a  <<x->>  b"
+    );
+    assert_eq!(
+        env.render_str("a <% raw --%> <<x->> <%- endraw --%> b", ())
+            .unwrap(),
+        "a <<x->>b"
+    );
+    assert_eq!(
+        env.render_str("<% if true -%> <<1->> <% endif --%> b", ())
+            .unwrap(),
+        " 1 b"
+    );
+
+    let env = Environment::new();
+    assert_eq!(env.render_str("a {#-#}\n b", ()).unwrap(), "a\n b");
+    assert_eq!(env.render_str("a {#+#}\n b", ()).unwrap(), "a \n b");
+}
+
+#[test]
 fn test_undeclared_variables() {
     let mut env = Environment::new();
     env.add_template(
